@@ -243,7 +243,8 @@ def run_cov(case):
         if two:
             cells_extra.append("meanfield:two-systems")
     violations = list(rec.violations)
-    bound = C_BOUND * epsrel * scale
+    bound = C_BOUND * epsrel * scale * (lib.pt_growth(nsteps)
+                                        if method == "pt" else 1.0)
     err = float("nan")
     if sa.shape != sb.shape or sa.shape[0] != nsteps + 1:
         violations.append({"what": "lengths differ", "mechanism": "length",
